@@ -100,6 +100,8 @@ func ptrOf(v string) interface{} {
 		return &t.Z
 	case "W":
 		return &t.W
+	case "V":
+		return &t.V
 	}
 	panic("bad var")
 }
@@ -128,6 +130,10 @@ func run(real bool, ops []Op, vars []string) (fail string, judged, unjudged int)
 			before = t.Words(op.V)
 		}
 		msg, p := vk.Try(func() {
+			if op.V == "V" && op.K < kGC {
+				mockWide(b, op, code)
+				return
+			}
 			switch op.K {
 			case kApply:
 				b.Interface(ptrOf(op.V)).Method(op.M).Apply(func(ctx *mocker.IContext, a int) int { return a + code })
@@ -299,6 +305,51 @@ func wellFormed(ops []Op) bool {
 	return true
 }
 
+// mockWide mocks the 9-integer-word methods of V: the callback / the When condition sees every
+// argument, so a clobbered register shows up as a wrong result or a missed condition.
+func mockWide(b *mocker.Builder, op Op, code int) {
+	im := b.Interface(&t.V).Method(op.M)
+	if op.M == "Sum8" {
+		as := func(ctx *mocker.IContext, a, b2, c, d, e, f, g, h int) int { return 0 }
+		switch op.K {
+		case kApply:
+			im.Apply(func(ctx *mocker.IContext, a, b2, c, d, e, f, g, h int) int {
+				if b2 != 2 || c != 3 || d != 4 || e != 5 || f != 6 || g != 7 || h != 8 {
+					return -1
+				}
+				return a + code
+			})
+		case kAsReturn:
+			im.As(as).Return(code)
+		case kAsWhen:
+			im.As(as).When(7, 2, 3, 4, 5, 6, 7, 8).Return(code)
+		}
+		return
+	}
+	as := func(ctx *mocker.IContext, a, b2, c, d string) int { return 0 }
+	switch op.K {
+	case kApply:
+		im.Apply(func(ctx *mocker.IContext, a, b2, c, d string) int {
+			if b2 != "b" || c != "cc" || d != "ddd" {
+				return -1
+			}
+			return len(a) - len(a) + codeOf(a, code)
+		})
+	case kAsReturn:
+		im.As(as).Return(code)
+	case kAsWhen:
+		im.As(as).When("seven", "b", "cc", "ddd").Return(code)
+	}
+}
+
+// codeOf mirrors the int methods' `a + code` for the string method: probe value 7 <-> "seven".
+func codeOf(a string, code int) int {
+	if a == "seven" {
+		return 7 + code
+	}
+	return 8 + code
+}
+
 func class(f string) string {
 	if i := strings.Index(f, ":"); i > 0 {
 		return f[:i]
@@ -331,6 +382,12 @@ func alphabet(thorough bool) ([]Op, []string) {
 			}
 		}
 	}
+	// wide-signature methods (9 integer words): As.When sees every argument
+	a = append(a, Op{K: kAsWhen, V: "V", M: "Sum8"}, Op{K: kAsWhen, V: "V", M: "Join"})
+	if thorough {
+		a = append(a, Op{K: kApply, V: "V", M: "Sum8"}, Op{K: kApply, V: "V", M: "Join"}, Op{K: kAsReturn, V: "V", M: "Join"})
+	}
+	vars = append(vars, "V")
 	a = append(a, Op{K: kGC}, Op{K: kDrop}, Op{K: kReset})
 	return a, vars
 }
